@@ -144,6 +144,38 @@ PROPS = {
             "real": {"bin": "omni", "run": "TestC13Real", "checks": {"quick": 2, "thorough": 12}, "shards": {"quick": 1, "thorough": 4}},
         },
     },
+    "C15": {
+        "level": "exploration",
+        "level_text": "Generated sets of 1-6 logs x 17 witness-answer classes x 16 distributor-answer classes (incl. redirects that rewrite or preserve the method) against a stub witness and an in-memory stub distributor that records every first-hop request; exactly the verified checkpoints must arrive, byte-identical, at the path naming the log ID and witness key name, and the error accounting must match.",
+        "level_note": "The distributor service is an http.RoundTripper stub; the witness verifier is the cosignature/v1 verifier as in production.",
+        "technique": "property-based testing with recording stubs (rapid)",
+        "assumptions": HIST_ASSUME[:1],
+        "parts": {
+            "dist": {"bin": "verifh", "run": "TestC15", "checks": {"quick": 3000, "thorough": 400000}, "shards": {"quick": 4, "thorough": 16}},
+        },
+    },
+    "C18": {
+        "level": "exploration",
+        "level_text": "Tile coordinates (dense 0..1100, every x%03d carry boundary to 10^9, random; hash and data tiles; widths 1..256) through the exported SumDB client compared with tlog.Tile.Path; all size pairs up to 1200 (thorough; 160 quick) plus sampled pairs to 2^20 fed by sumdb.FeedLog from a stub SumDB that only serves tiles of the published tree, the resulting proof checked by the independent RFC 6962 verifier and by a real witness.",
+        "level_note": "Stub SumDB serves tiles with x/mod tlog.ReadTileData over the harness's reference tree; reference = x/mod tlog for paths, harness verifier for proofs.",
+        "technique": "property-based differential testing against the reference tlog implementation; exhaustive small size pairs",
+        "assumptions": HIST_ASSUME,
+        "parts": {
+            "paths": {"bin": "verifh", "run": "TestC18Paths", "checks": {"quick": 5000, "thorough": 300000}, "shards": {"quick": 1, "thorough": 8}},
+            "pairs": {"bin": "verifh", "run": "TestC18Pairs", "kind": "plain", "shards": {"quick": 4, "thorough": 16}},
+            "big": {"bin": "verifh", "run": "TestC18Big", "checks": {"quick": 300, "thorough": 20000}, "shards": {"quick": 2, "thorough": 16}},
+        },
+    },
+    "C17": {
+        "level": "exploration",
+        "level_text": "Finite and exhaustive: every entry of both shipped YAML files in the working tree is pushed through the functions Main uses (yaml schema, config.NewLog, AsLogMap, feeder enum) and one real feeder cycle against a network that records and refuses every request (URL well-formed, supported scheme, required query parameters, no panic); the same oracle is then run on 8 kinds of damaged copies per entry and must reject each, which shows it can fail.",
+        "level_note": "The space is the fixed file, so generation is applied to the loader (config defects) rather than to the file.",
+        "technique": "exhaustive enumeration of the shipped configuration + mutation-based sensitivity of the loader oracle",
+        "assumptions": ["the working tree's omniwitness/logs.yaml and logs_test.yaml are what gets embedded"],
+        "parts": {
+            "shipped": {"bin": "omni", "run": "TestC17", "kind": "plain"},
+        },
+    },
 }
 
 # properties not (yet) claimed: id -> reason
